@@ -182,7 +182,7 @@ func c08(c *Ctx) {
 		for _, arm := range []FM{CmpInt(isByteOfMsg, token.LSS, ' '), CmpInt(isByteOfMsg, token.GTR, '~'), CmpInt(isByteOfMsg, token.EQL, '%')} {
 			found := false
 			for _, b := range blocksWhere(enc, arm) {
-				if b == call.Block() {
+				if leadsInto(map[*ssa.BasicBlock]bool{call.Block(): true}, b) {
 					found = true
 				}
 			}
@@ -232,9 +232,7 @@ func c08(c *Ctx) {
 				case ParamV("msg")(v):
 					nM++
 					// the verbatim return is reached only from the scan's own exit (its header), never from inside the body
-					for _, p := range r.Block().Preds {
-						c.Expect(isLoopHeader(p), r, w.f, w.n+":verbatim-only-after-the-whole-scan", "the message is returned verbatim before every byte was scanned")
-					}
+					c.Expect(afterLoop(r.Block()), r, w.f, w.n+":verbatim-only-after-the-whole-scan", "the message is returned verbatim before every byte was scanned")
 					c.Unreachable(r, w.n+":verbatim-not-for-an-empty-message-arm", Cmp(ParamV("msg"), token.EQL, ConstStr("")))
 				default:
 					call, ok := v.(*ssa.Call)
